@@ -127,7 +127,7 @@ func runC02(e *sim.Env) {
 	}
 
 	var emit func(n int, bc bool, args ...any) // the emitting side's Emit
-	var frames func() []world.ProtoFrame     // wire modes: the frames the observer received, in order
+	var frames func() []world.ProtoFrame       // wire modes: the frames the observer received, in order
 	upgraded := func() bool { return true }
 	eioCfg := &eio.ServerConfig{PingInterval: 25 * time.Second, PingTimeout: far, UpgradeTimeout: far,
 		WebSocketAcceptOptions: &websocket.AcceptOptions{CompressionMode: websocket.CompressionDisabled}}
@@ -269,7 +269,7 @@ func runC02(e *sim.Env) {
 	// ---- oracle
 	if wire {
 		fr := frames()
-		expect := 0       // attachments still expected for the current binary packet
+		expect := 0        // attachments still expected for the current binary packet
 		var cg, ck, ci int // whose attachments
 		for _, f := range fr {
 			if f.Binary {
